@@ -502,6 +502,23 @@ class Workspace:
                 errors.append(m)
         return p.returncode, errors, p.stderr
 
+    def check_tests(self, timeout=1500):
+        """type-check the workspace under cfg(test) (the #[test]s the macro generates)"""
+        cmd = ["cargo", "check", "--tests", "--offline", "--message-format=json", "-j", str(NPROC)]
+        with flock("cargo_" + self.name):
+            p = run(cmd, cwd=self.dir, timeout=timeout)
+        errors = []
+        for line in p.stdout.splitlines():
+            if not line.startswith("{"):
+                continue
+            try:
+                m = json.loads(line)
+            except ValueError:
+                continue
+            if m.get("reason") == "compiler-message" and m["message"]["level"] == "error":
+                errors.append(m)
+        return p.returncode, errors, p.stderr
+
     def run_cases(self, cases, release=False):
         """cases: list of (case_id, decl_id, op, arg) -> dict case_id -> outcome string"""
         per = [[] for _ in range(self.nshards)]
@@ -572,6 +589,12 @@ class ModuleWorkspace(Workspace):
             cname = "%s_s%d" % (self.name, k)
             cdir = os.path.join(self.dir, cname)
             members.append(cname)
+            if self.nostd:
+                write_if_changed(os.path.join(cdir, "Cargo.toml"), NOSTD_CARGO % (cname, REPO, ", ".join('"%s"' % f for f in self.features if f != "std")))
+                write_if_changed(os.path.join(cdir, "src", "rt.rs"), rtgen.rt_nostd_source())
+                write_if_changed(os.path.join(cdir, "src", "lib.rs"), "#![no_std]\n#![allow(dead_code, unused_imports, non_snake_case)]\nextern crate alloc;\nmod rt;\nmod decls;\n")
+                write_if_changed(os.path.join(cdir, "src", "decls.rs"), "use super::rt;\n" + "\n".join(m[1] for m in shards[k]) + "\n")
+                continue
             write_if_changed(os.path.join(cdir, "Cargo.toml"), cargo_toml(cname, self.features).replace("[dependencies]", "[lib]\npath = \"src/lib.rs\"\n\n[dependencies]"))
             write_if_changed(os.path.join(cdir, "src", "rt.rs"), rt)
             write_if_changed(os.path.join(cdir, "src", "lib.rs"), "#![allow(dead_code, unused_imports, non_snake_case)]\nmod rt;\nmod decls;\n")
